@@ -153,6 +153,24 @@ def events_for_case(o, cid, g, g2, K, qs, ids):
         probe(ev, s3, on, 3, K, gn, qs, negate=True, base_g=g)
     except Exception as ex:  # noqa
         e["exc"] = sd.exc_str(ex)
+    # history: another configuration is assigned to the first object; swap() of it is probed again
+    if cid % 2 == 0 and not g.name.startswith("ulp"):
+        o5 = sd.set_config_event(ev, s, o, g, h=1, k=cid // 2)
+        if o5 is not None:
+            probe(ev, s, o5, 1, K, g, qs)
+            e = ev("Derive", kind="swap", h=1, h2=7, post=dict(sd.EMPTY_POST))
+            try:
+                s7 = s.swap()
+                e["post"] = sd.alpha_obj(s7, sd.inv_map(g))
+                probe(ev, s7, swap_obj(o5), 7, K, g, qs)
+            except Exception as ex:  # noqa
+                e["exc"] = sd.exc_str(ex)
+            # restore the original configuration for the remaining relations
+            from score_analysis.scores import BinaryLabel
+            e = ev("SetConfig", h=1, sc=o["sc"], ec=o["ec"], as_string=False, post=dict(sd.EMPTY_POST))
+            s.score_class, s.equal_class = BinaryLabel(o["sc"]), BinaryLabel(o["ec"])
+            e["post"] = sd.alpha_obj(s, sd.inv_map(g))
+            probe(ev, s, o, 1, K, g, qs)
     # increasing affine map: the same abstract object under another concretisation
     e = ev("Derive", kind="affine", h=1, h2=4, post=dict(sd.EMPTY_POST), conc2=g2.name)
     try:
